@@ -221,6 +221,25 @@ class Exec:
         """expression-level unknown: surfaces as <..> in any effect text or context that uses it"""
         return Val('unk', what)
 
+    @staticmethod
+    def _lit_pat(p):
+        """integer literals a pattern admits: [..] / 'wild' / None (not a literal pattern)"""
+        k = p.get('k')
+        if k == 'Wild':
+            return 'wild'
+        if k == 'Lit':
+            v = hir.lit_int({'k': 'Lit', 'v': p['v']})
+            return [v] if v is not None else None
+        if k == 'Or':
+            out = []
+            for sp in p['sub']:
+                r = Exec._lit_pat(sp)
+                if not isinstance(r, list):
+                    return None
+                out += r
+            return out
+        return None
+
     def unk_stmt(self, what, node):
         """statement-level construct that is not modelled: only matters if it can hide a graph effect"""
         if any(n.get('k') == 'MethodCall' and (n.get('callee') or '').startswith(GL) and n.get('mutborrow') is None and hir.strip(n['recv']).get('mutborrow')
@@ -438,8 +457,33 @@ class Exec:
             return '%s %s %s' % (l, {'Eq': '==', 'Ne': '!=', 'Lt': '<', 'Le': '<=', 'Gt': '>', 'Ge': '>='}[e['op']], r)
         if k == 'MethodCall' and e['name'] in ('is_empty', 'is_zero', 'is_one', 'is_pauli', 'is_some', 'is_none') and not e['args']:
             return '%s.%s' % (show(self.ev(e['recv'])), e['name'])
+        if k == 'MethodCall' and e['name'] == 'contains' and len(e['args']) == 1:
+            rv, av = self.ev(e['recv']), self.ev(e['args'][0])
+            if not (isinstance(rv, Val) and rv.tag == 'unk') and not (isinstance(av, Val) and av.tag == 'unk'):
+                return '%s in %s' % (show(av), show(rv))
         if k == 'LetCond':
             return '%s ~ %s' % (show(self.ev(e['init'])), hir.pp_pat(e['pat']))
+        if k == 'Match' and e['arms'] and all(hir.lit_bool(hir.strip(a['body'])) is not None and not a.get('guard') and self._lit_pat(a['pat']) is not None for a in e['arms']):
+            # matches!(x, 3 | 5): a disjunction of equalities (only true-arms before the first wildcard count)
+            sc = show(self.ev(e['scrut']))
+            parts = []
+            seen_false = False
+            for a in e['arms']:
+                lits = self._lit_pat(a['pat'])
+                val = hir.lit_bool(hir.strip(a['body']))
+                if lits == 'wild':
+                    if val and not seen_false and not parts:
+                        return 'true'
+                    break
+                if val:
+                    parts += ['%s == %s' % tuple(sorted([str(v_), sc])) for v_ in lits]
+                else:
+                    seen_false = True
+            if not seen_false or True:
+                parts = sorted(set(parts))
+                if not parts:
+                    return 'false'
+                return parts[0] if len(parts) == 1 else '(%s)' % ' or '.join(parts)
         if k == 'Path':
             l = hir.local(e)
             if l and isinstance(self.env.get(l[1]), Val) and self.env[l[1]].tag == 'cond':
@@ -641,6 +685,14 @@ class Exec:
             if l:
                 self.env[l[1]] = Val('coll', 'filter[%s] %s' % (c, r.a[0]), r.a[1])
                 return Val('unit')
+        if n == 'filter' and isinstance(r, Val) and r.tag == 'coll' and args and hir.strip(args[0]).get('k') == 'Closure':
+            # iterator form of retain: the same filtered collection
+            cl = hir.strip(args[0])
+            saved = dict(self.env)
+            self.bind(cl['params'][0], Val('elem', r, 'x'))
+            c = self.cond_text(cl['body'])
+            self.env = saved
+            return Val('coll', 'filter[%s] %s' % (c, r.a[0]), r.a[1])
         if n in ('sort', 'sort_unstable', 'dedup', 'reverse', 'truncate', 'clear', 'pop', 'remove', 'swap_remove', 'insert', 'append', 'extend', 'drain', 'push') and isinstance(r, Val) and r.tag == 'coll':
             l = hir.local(recv)
             if l and n not in ('sort', 'sort_unstable'):
@@ -887,6 +939,38 @@ class Exec:
             return
         if k in ('Block',):
             self.block(hir.stmts_of(s))
+            return
+        if k == 'Match' and all(self._lit_pat(a['pat']) is not None and not a.get('guard') for a in s['arms']):
+            # a match on literals is an if / else-if chain on equalities
+            sc = self.ev(s['scrut'])
+            prev = []
+            for a in s['arms']:
+                lits = self._lit_pat(a['pat'])
+                if lits == 'wild':
+                    c = 'true'
+                else:
+                    parts = sorted('%s == %s' % tuple(sorted([str(v_), show(sc)])) for v_ in lits)
+                    c = parts[0] if len(parts) == 1 else '(%s)' % ' or '.join(parts)
+                for pc in prev:
+                    self.ctx.append('if ' + _negate(pc))
+                if c != 'true':
+                    self.ctx.append('if ' + c)
+                body = hir.strip(a['body'])
+                if hir.diverges(body) or (any('panic' in (hir.callee(c2) or '') for c2 in hir.calls(a['body'])) and not any(
+                        (n.get('callee') or '').startswith(GL) for n in hir.nodes(a['body']) if n.get('k') == 'MethodCall')):
+                    self.emit('panic')
+                elif body.get('k') == 'Ret' or (hir.stmts_of(a['body']) and hir.strip(hir.stmts_of(a['body'])[-1]).get('k') == 'Ret'):
+                    self.block([x for x in hir.stmts_of(a['body']) if hir.strip(x).get('k') != 'Ret'])
+                    # an arm that returns: the rest of the function runs under its negation
+                    self._ret_arm_conds = getattr(self, '_ret_arm_conds', []) + [c]
+                else:
+                    self.block(hir.stmts_of(a['body']))
+                del self.ctx[len(self.ctx) - len(prev) - (1 if c != 'true' else 0):]
+                if c != 'true':
+                    prev.append(c)
+            for c in getattr(self, '_ret_arm_conds', []):
+                self.ctx.append('if ' + _negate(c))
+            self._ret_arm_conds = []
             return
         if k == 'Match':
             sc = self.ev(s['scrut'])
